@@ -16,6 +16,11 @@ def collect(ctx, jobs):
     for l in ctx.leaks:
         # the scripted clients of the harness run in the same process: their own TLS / HTTP client
         # stacks log what the harness itself sends; that is not the endpoint's log
+        # only the secrets the property names: Proxy-Authorization, Authorization and Cookie request
+        # headers, the SNI credentials label, configured passwords (a Set-Cookie relayed from an origin is
+        # not among them)
+        if not any(l["tag"].lower().startswith(t) for t in ("proxy-authorization", "authorization", "cookie", "sni-creds", "password", "socks", "credentials-file")):
+            continue
         if "::client" in l["target"] or l["target"].startswith("ttv") or l["target"].startswith("c0") or l["target"].startswith("c1"):
             continue
         if l["target"].startswith("trusttunnel"):
